@@ -123,7 +123,7 @@ func valueFlowsFrom(v ssa.Value, call ssa.CallInstruction, idx int) bool {
 			return true
 		}
 		if p, ok := v.(*ssa.Phi); ok {
-			for _, e := range p.Edges {
+			for _, e := range ssax.FeasibleEdges(p) {
 				if f(e) {
 					return true
 				}
